@@ -73,6 +73,16 @@ def check_stop(ctx, case):
             f(gen._perturb(a_state), gen._perturb(a_key), **kw)
         except Exception:
             pass
+    if isinstance(out, np.ndarray) and a_state.ndim and a_state.flags.writeable and a_key.flags.writeable:
+        # the caller refills its own block / key buffers for the next acquisition while the result is still held: the result must not follow them
+        held = np.array(out, copy=True)
+        a_state[...] = gen._perturb(s0)
+        a_key[...] = gen._perturb(k0)
+        same = np.array_equal(out, held)
+        a_state[...] = s0
+        a_key[...] = k0
+        if not same:
+            raise Violation('aes.%s(at_round=%s, after_step=%s, shape=%s): the returned state changed when the caller refilled the arrays it had passed (the result aliases an argument)' % (mode, rnd, step, shape), case)
     # documented defaults: at_round omitted = last round, after_step omitted = last operation of the round
     erk, est = (nr if rnd is None else rnd), (3 if step is None else step)
     n = max(len(blocks) if shape in ('many-one', 'paired') else 1, len(keys) if shape in ('one-many', 'paired') else 1)
@@ -235,6 +245,40 @@ def unit_primitives(ctx, reps):
     hyp.run_enum(ctx, cases(), check_prim)
 
 
+def check_large(ctx, case):
+    """a batch of more than 65536 blocks (one key / paired keys): equal to the same call on chunks of 4096 blocks, 48 rows also against the reference"""
+    mode, (seed, rep) = case['mode'], case['seed']
+    g = gen.rng(int(seed), 'c05-large', mode, int(rep))
+    n = int(g.choice([65537, 65536 + 4096 + 3, 70001, 131073])) if rep % 2 == 0 else int(g.choice([32769, 65535, 65536]))
+    ks = int(g.choice([16, 24, 32]))
+    shape = 'many-one' if g.integers(2) else 'paired'
+    nr = ks // 4 + 6
+    stop = g.integers(3) == 0
+    kw = {'at_round': int(g.integers(0, nr + 1)), 'after_step': int(g.integers(0, 4))} if stop else {}
+    blocks = g.integers(0, 256, size=(n, 16)).astype('uint8')
+    keys = g.integers(0, 256, size=(n, ks)).astype('uint8') if shape == 'paired' else g.integers(0, 256, size=(1, ks)).astype('uint8')
+    f = aes.encrypt if mode == 'encrypt' else aes.decrypt
+    a_key = keys if shape == 'paired' else keys[0]
+    out = must(case, 'aes.%s on %d blocks (%s, %s)' % (mode, n, shape, kw), f, blocks, a_key, **kw)
+    if not isinstance(out, np.ndarray) or out.shape != (n, 16):
+        raise Violation('aes.%s on %d blocks: result shape %s' % (mode, n, np.shape(out)), case)
+    for a in range(0, n, 4096):
+        part = f(blocks[a:a + 4096], a_key[a:a + 4096] if shape == 'paired' else a_key, **kw)
+        if not np.array_equal(out[a:a + 4096], np.asarray(part).reshape(-1, 16)):      # a single remaining block comes back as one state
+            raise Violation('aes.%s on %d blocks (%s, %s): rows %d.. differ from the same call on those 4096 blocks alone' % (mode, n, shape, kw, a), case)
+    rows = sorted(set([0, n - 1, 65535 % n, 65536 % n] + [int(v) for v in g.integers(0, n, size=44)]))
+    erk, est = kw.get('at_round', nr), kw.get('after_step', 3)
+    for r in rows:
+        exp = R.state_at(bytes(keys[r if shape == 'paired' else 0]), bytes(blocks[r]), mode, erk, est)
+        if list(map(int, out[r])) != list(exp):
+            raise Violation('aes.%s on %d blocks (%s, %s): row %d differs from the FIPS-197 reference' % (mode, n, shape, kw, r), case)
+    ctx.case(case, True, ['large_batch:' + mode, 'shape:' + shape, 'stop' if kw else 'full', 'blocks>65536' if n > 65536 else 'blocks<=65536'], key=(mode, n, ks, shape, str(kw), rep))
+
+
+def unit_large(ctx, reps):
+    hyp.run_enum(ctx, ({'kind': 'large', 'mode': mode, 'seed': [int(ctx.seed), rep]} for rep in range(reps) for mode in ('encrypt', 'decrypt')), check_large)
+
+
 def units(tier):
     q = tier == 'quick'
     reps = 2 if q else 100
@@ -243,6 +287,7 @@ def units(tier):
         # split the thorough enumeration over more processes
         us = [{'name': 'enum-%s-%d' % (m, i), 'fn': 'unit_enum_shard', 'kwargs': {'mode': m, 'reps': reps // 6, 'shard': i}} for m in ('encrypt', 'decrypt') for i in range(6)]
     us.append({'name': 'primitives', 'fn': 'unit_primitives', 'kwargs': {'reps': 20 if q else 2000}})
+    us.append({'name': 'large-batches', 'fn': 'unit_large', 'kwargs': {'reps': 2 if q else 12}})
     for i in range(2 if q else 8):
         us.append({'name': 'generated-%d' % i, 'fn': 'unit_generated', 'kwargs': {'n': 400 if q else 12000}})
     return us
@@ -258,4 +303,4 @@ def selftest():
 
 
 def replay(ctx, case):
-    (check_prim if case['kind'] == 'prim' else check_stop)(ctx, case)
+    {'prim': check_prim, 'large': check_large}.get(case['kind'], check_stop)(ctx, case)
